@@ -18,6 +18,7 @@ impl PairImpl of PairTrait {
     }
 }
 
+#[inline(never)]
 pub fn gcd(a: u32, b: u32) -> u32 {
     if b == 0 {
         return a;
@@ -25,6 +26,7 @@ pub fn gcd(a: u32, b: u32) -> u32 {
     gcd(b, a % b)
 }
 
+#[inline(always)]
 pub fn clamp<T, +PartialOrd<T>, +Copy<T>, +Drop<T>>(x: T, lo: T, hi: T) -> T {
     if x < lo {
         lo
